@@ -266,15 +266,42 @@ Definition C06_through_forked : Prop :=
     through_cursor_run merged forked start c stop bundle =
       (map (file_event SNewIrr) (upto (rn (cu_lib c)) D), RsNotImplemented).
 
-(* NOT a limitation the code documents: a target cursor sitting on its own LIB block (cursor number
-   <= LIB number: every final cursor) is on the chain, yet the resolver never recognises it — the
-   cursor block goes by in the "up to LIB" pass-through — and the first block above the LIB ends the
-   source with the same "not implemented" error *)
-Definition C06_through_at_lib_not_served : Prop :=
+(* a final target cursor: the cursor block sits at or below its own LIB number (block = LIB for every
+   final cursor), so it goes by in the "up to LIB" pass-through; the resolver recognises it there and
+   everything is forwarded, in order, as new+irreversible.
+   (The code as shipped did not: the cursor block was forwarded without being recognised and the first
+   block above the LIB ended the source with the "not implemented" error although the cursor is on the
+   chain — found by this proof package, replayed on the real code, fixed in cursor_resolver.go; the
+   old behaviour is kept below as `resolver_step_unfixed` with a witness.) *)
+Definition C06_through_final_cursor : Prop :=
   forall merged forked start c stop bundle B,
     chain_ok merged ->
     let D := file_delivery merged start stop bundle in
     In B D -> bref B = cu_blk c -> rn (cu_blk c) <= rn (cu_lib c) ->
-    (exists b, In b D /\ rn (cu_lib c) < bnum b) ->
-    through_cursor_run merged forked start c stop bundle =
-      (map (file_event SNewIrr) (upto (rn (cu_lib c)) D), RsNotImplemented).
+    through_cursor_run merged forked start c stop bundle = (map (file_event SNewIrr) D, RsOk).
+
+(* the pass-through part of cursorResolver.ProcessBlock before the fix (pass = true only) *)
+Definition resolver_step_unfixed (c : cursor) (s : rstate) (b : block) : rstate * list event * rres :=
+  if r_resolved s then (s, [file_event SNewIrr b], RsOk) else
+  if bnum b <=? rn (cu_lib c) then (s, [file_event SNewIrr b], RsOk) else
+  if bnum b <? rn (cu_blk c) then (mkRS (r_seen s ++ [b]) false, [], RsOk) else
+  let seen := r_seen s ++ [b] in
+  if bid b =? ri (cu_blk c) then (mkRS seen true, send_between SNewIrr seen (rn (cu_lib c)) (rn (cu_blk c)), RsOk)
+  else (mkRS seen false, [], RsNotImplemented).
+
+Fixpoint resolver_run_unfixed (c : cursor) (s : rstate) (l : list block) : list event * rres :=
+  match l with
+  | [] => ([], RsOk)
+  | b :: l' =>
+      let '(s', evs, r) := resolver_step_unfixed c s b in
+      match r with
+      | RsOk => let '(evs', r') := resolver_run_unfixed c s' l' in (evs ++ evs', r')
+      | _ => (evs, r)
+      end
+  end.
+
+Definition C06_through_final_cursor_unfixed_refuted : Prop :=
+  exists merged start c stop bundle B,
+    chain_ok merged /\
+    In B (file_delivery merged start stop bundle) /\ bref B = cu_blk c /\ rn (cu_blk c) <= rn (cu_lib c) /\
+    snd (resolver_run_unfixed c rs_init (file_delivery merged start stop bundle)) = RsNotImplemented.
